@@ -34,3 +34,14 @@ Definition close_pc (p : pc) : bool :=
 
 (** a thread blocked in Result / Wait *)
 Definition waiting_pc (p : pc) : bool := match p with WRecv _ => true | _ => false end.
+
+(** Assumption M7, made explicit: the agent path of a request ("<asker path>/@future@<uuid>") is FRESH - unique
+    among all requests of all incarnations of all actors for the whole life of the system.  In the model this is
+    the validity condition of a population: nobody else ever registers anything under the focus future's path,
+    the focus future is registered under no other path ([prog_ok]), and a [PReply fpath v] thread is a reply to
+    THIS request's envelope (it waits for the request to be sent: [first_pc]).  A reply produced for another
+    request - e.g. a late reply to an earlier incarnation of the asker - is a [PReply p v] with p <> fpath.
+    If path generation were only unique per incarnation (a counter), two requests would share a path, i.e. the
+    environment would contain a registration of this future under the other request's path (or of the other
+    future under this path): exactly what [prog_ok] excludes, and then routing fails (FutFwd.routing_needs_M7). *)
+Definition M7_agent_path_fresh (progs : list prog) : Prop := forallb prog_ok progs = true.
